@@ -31,6 +31,14 @@ VALUES = [lambda i: ('value', i), lambda i: 0, lambda i: KeyError('returned, not
           lambda i: '', lambda i: [], lambda i: 0.0, lambda i: i + 1]
 
 
+class MemberStop(BaseException):
+    """what some scripted members raise: neither an Exception nor a CancelledError"""
+
+
+def raised_name(i):
+    return 'MemberStop' if i % 4 == 2 else 'KeyError'
+
+
 def same_value(a, b):
     """equality that also works for returned exception instances"""
     if isinstance(a, BaseException) or isinstance(b, BaseException):
@@ -123,7 +131,9 @@ class Impl:
                 pass
             raise
         if k == 'e':
-            raise KeyError(i)
+            # every fourth member fails with a class derived directly from BaseException (asyncio
+            # stores it in the task like any other): "a member raises" is not "raises an Exception"
+            raise MemberStop(i) if i % 4 == 2 else KeyError(i)
         return None if k == 'n' else VALUES[i % len(VALUES)](i)
 
     def drop(self, j):
